@@ -89,6 +89,11 @@ func genC18(r *h.Rng, tier string, idx int) *h.Plan {
 			if r.P(1, 3) {
 				f["nest"] = map[string]interface{}{"in": str(), "list": []interface{}{str(), "b"}}
 			}
+			if r.P(1, 4) {
+				// containers in containers: a map inside a list inside a list, a list in a map in a list
+				f["grid"] = []interface{}{[]interface{}{map[string]interface{}{"cell": str()}}, []interface{}{}}
+				f["rows"] = []interface{}{map[string]interface{}{"cols": []interface{}{map[string]interface{}{"v": str()}}}}
+			}
 			id := r.Pick(ids)
 			if r.P(1, 6) {
 				id = ""
